@@ -38,7 +38,7 @@ def known_f28(ctx, results):
 
 def run(ctx):
     q1, q2, q3 = {'quick': (64, 48, 32), 'thorough': (600, 400, 200)}[ctx.tier]
-    plan = [('plain', q1, 8), ('ops', q2, 6), ('eof', q3, 4), ('reads', q2, 6), ('bufreq', q2, 6)]
+    plan = [('plain', q1, 8), ('ops', q2, 6), ('eof', q3, 4), ('reads', q2, 6), ('bufreq', q2, 6), ('unput', q3, 6)]
     return rtprop.run(ctx, THEOREMS, plan, 'proof',
                       'delivery independence: every case runs the real scanner under a buffer size in {1,2,3,4,5,7,8,16,33,16384} and a read schedule (1-byte, small random, larger random, unrestricted); the Lean abstract scanner has no buffer at all, so equality of traces is independence from delivery; `reads` family: with 1-byte reads every action logs how many bytes the scanner has asked for so far, and the model predicts that number from the automaton alone (batch: up to the byte that jams it; interactive: also stops at a state without outgoing transitions) - an interactive scanner that asks for more has over-read; `bufreq` family: every read request (`rq n`: its size depends on yy_buf_size, on the partial token moved to the front, on growth by doubling and on YY_READ_BUF_SIZE) must be the request of the Lean buffer machine Runtime/Buf.lean, for which run_tokens proves - for every buffer size, every cutting of the input into reads and every automaton - that the tokens are those of a scan of the whole input (scanners whose actions leave the input alone; REJECT and the NUL-sentinel detour are not in that model)' + '. Kernel-checked theorems about the abstract scanner (listed under obligations) + differential '
                       'correspondence of the real generated scanner (ASan/UBSan build) with that model on generated cases.',
